@@ -295,6 +295,14 @@ func (t *Transport) Dials() int {
 // FrameSize implements rhp4.TransportClient.
 func (t *Transport) FrameSize() int { return 4096 }
 
+// SetPeerKey changes the key the transport reports for its peer (the session
+// identity of the host).
+func (t *Transport) SetPeerKey(k types.PublicKey) {
+	t.mu.Lock()
+	t.peer = k
+	t.mu.Unlock()
+}
+
 // PeerKey implements rhp4.TransportClient.
 func (t *Transport) PeerKey() types.PublicKey { return t.peer }
 
